@@ -893,4 +893,383 @@ theorem loops_agree (ext : Bool) (l d : Nat) (hdl : d ≤ l) (hl : 1 ≤ l) (bs 
         obtain ⟨i1, i2, i3, i4⟩ := ih rest.length (by omega) rest rfl
         exact ⟨by rw [i1], i2, i3, i4⟩
 
+
+/-! ## Decoding what the encoder wrote -/
+
+theorem beBytes_length (w n : Nat) : (beBytes w n).length = w := by
+  induction w with
+  | zero => rfl
+  | succ w ih => simp [beBytes, ih]
+
+theorem beNat_beBytes_mod (w n : Nat) : beNat (beBytes w n) = n % 256 ^ w := by
+  induction w with
+  | zero => simp [beBytes, beNat, Nat.mod_one]
+  | succ w ih =>
+    simp only [beBytes, beNat, beBytes_length, ih]
+    rw [Nat.pow_succ, Nat.mod_mul]
+    rw [Nat.mul_comm (256 ^ w)]; omega
+
+theorem beNat_beBytes (w n : Nat) (h : n < 256 ^ w) : beNat (beBytes w n) = n := by
+  rw [beNat_beBytes_mod, Nat.mod_eq_of_lt h]
+
+theorem readN_left {n : Nat} {x : List Nat} (h : x.length = n) (r : List Nat) :
+    readN n (x ++ r) = .ok (x, r) := by
+  unfold readN
+  rw [if_pos (by rw [List.length_append]; omega), List.take_left' h, List.drop_left' h]
+
+theorem ofByte_fixPos {b : Nat} (h : b < 128) : Marker.ofByte b = .fixPos b := by
+  simp [Marker.ofByte, h]
+
+theorem ofByte_fixMap {n : Nat} (h : n < 16) : Marker.ofByte (0x80 + n) = .fixMap n := by
+  have h1 : ¬ (0x80 + n < 0x80) := by omega
+  have h2 : 0x80 + n < 0x90 := by omega
+  simp only [Marker.ofByte, h1, h2, ↓reduceIte, Nat.add_sub_cancel_left]
+
+theorem ofByte_fixArray {n : Nat} (h : n < 16) : Marker.ofByte (0x90 + n) = .fixArray n := by
+  have h1 : ¬ (0x90 + n < 0x80) := by omega
+  have h2 : ¬ (0x90 + n < 0x90) := by omega
+  have h3 : 0x90 + n < 0xa0 := by omega
+  simp only [Marker.ofByte, h1, h2, h3, ↓reduceIte, Nat.add_sub_cancel_left]
+
+theorem ofByte_fixStr {n : Nat} (h : n < 32) : Marker.ofByte (0xa0 + n) = .fixStr n := by
+  have h1 : ¬ (0xa0 + n < 0x80) := by omega
+  have h2 : ¬ (0xa0 + n < 0x90) := by omega
+  have h3 : ¬ (0xa0 + n < 0xa0) := by omega
+  have h4 : 0xa0 + n < 0xc0 := by omega
+  simp only [Marker.ofByte, h1, h2, h3, h4, ↓reduceIte, Nat.add_sub_cancel_left]
+
+theorem ofByte_fixNeg {b : Nat} (h : 0xe0 ≤ b) : Marker.ofByte b = .fixNeg b := by
+  have h1 : ¬ (b < 0x80) := by omega
+  have h2 : ¬ (b < 0x90) := by omega
+  have h3 : ¬ (b < 0xa0) := by omega
+  have h4 : ¬ (b < 0xc0) := by omega
+  have e : ∀ k, k < 0xe0 → ¬ (b = k) := by intro k hk; omega
+  simp only [Marker.ofByte, h1, h2, h3, h4, ↓reduceIte,
+    e 0xc0 (by omega), e 0xc1 (by omega), e 0xc2 (by omega), e 0xc3 (by omega), e 0xc4 (by omega),
+    e 0xc5 (by omega), e 0xc6 (by omega), e 0xc7 (by omega), e 0xc8 (by omega), e 0xc9 (by omega),
+    e 0xca (by omega), e 0xcb (by omega), e 0xcc (by omega), e 0xcd (by omega), e 0xce (by omega),
+    e 0xcf (by omega), e 0xd0 (by omega), e 0xd1 (by omega), e 0xd2 (by omega), e 0xd3 (by omega),
+    e 0xd4 (by omega), e 0xd5 (by omega), e 0xd6 (by omega), e 0xd7 (by omega), e 0xd8 (by omega),
+    e 0xd9 (by omega), e 0xda (by omega), e 0xdb (by omega), e 0xdc (by omega), e 0xdd (by omega),
+    e 0xde (by omega), e 0xdf (by omega)]
+
+
+
+/-- Decoding a header whose layout is `data k kind` followed by exactly `k` bytes. -/
+theorem dec_data (ext : Bool) (d b k : Nat) (kind : DataKind) (x r : List Nat)
+    (hl : layout (Marker.ofByte b) = .data k kind) (hx : x.length = k) :
+    decodeG ext d (b :: (x ++ r)) = .ok (mkData kind k x, r) := by
+  unfold decodeG
+  simp only [header, hl, readN_left hx]
+
+theorem dec_uint_data (ext : Bool) (d b k n : Nat) (r : List Nat)
+    (hl : layout (Marker.ofByte b) = .data k .uint) (hn : n < 256 ^ k) :
+    decodeG ext d (b :: (beBytes k n ++ r)) = .ok (.uint n, r) := by
+  rw [dec_data ext d b k .uint _ r hl (beBytes_length _ _), mkData, beNat_beBytes k n hn]
+
+theorem dec_sint_data (ext : Bool) (d b k n m : Nat) (r : List Nat)
+    (hl : layout (Marker.ofByte b) = .data k .sint) (hm : m = 256 ^ k)
+    (h1 : 1 ≤ n) (h2 : n ≤ m / 2) :
+    decodeG ext d (b :: (beBytes k (m - n) ++ r)) = .ok (.nint n, r) := by
+  rw [dec_data ext d b k .sint _ r hl (beBytes_length _ _), mkData,
+    beNat_beBytes k (m - n) (by omega)]
+  subst hm
+  rw [if_neg (by omega)]
+  have : 256 ^ k - (256 ^ k - n) = n := by omega
+  rw [this]
+
+theorem beBytes_one {n : Nat} (h : n < 256) : beBytes 1 n = [n] := by
+  simp [beBytes, Nat.mod_eq_of_lt h]
+
+theorem dec_uint (ext : Bool) (d n : Nat) (r : List Nat) (h : n < 2 ^ 64) :
+    decodeG ext d (encUint n ++ r) = .ok (.uint n, r) := by
+  unfold encUint
+  split
+  · rename_i h1
+    show decodeG ext d (n :: r) = _
+    unfold decodeG
+    simp only [header, ofByte_fixPos h1, layout]
+  · split
+    · rename_i h2
+      have := dec_uint_data ext d 0xcc 1 n r rfl (by omega)
+      rwa [beBytes_one h2] at this
+    · split
+      · exact dec_uint_data ext d 0xcd 2 n r rfl (by omega)
+      · split
+        · exact dec_uint_data ext d 0xce 4 n r rfl (by omega)
+        · exact dec_uint_data ext d 0xcf 8 n r rfl (by omega)
+
+theorem dec_nint (ext : Bool) (d n : Nat) (r : List Nat) (h1 : 1 ≤ n) (h2 : n ≤ 2 ^ 63) :
+    decodeG ext d (encNint n ++ r) = .ok (.nint n, r) := by
+  unfold encNint
+  split
+  · rename_i h3
+    show decodeG ext d ((256 - n) :: r) = _
+    unfold decodeG
+    simp only [header, ofByte_fixNeg (show 0xe0 ≤ 256 - n by omega), layout]
+    have : 256 - (256 - n) = n := by omega
+    rw [this]
+  · split
+    · have := dec_sint_data ext d 0xd0 1 n 256 r rfl (by decide) h1 (by omega)
+      rwa [beBytes_one (by omega)] at this
+    · split
+      · exact dec_sint_data ext d 0xd1 2 n 65536 r rfl (by decide) h1 (by omega)
+      · split
+        · exact dec_sint_data ext d 0xd2 4 n 4294967296 r rfl (by decide) h1 (by omega)
+        · exact dec_sint_data ext d 0xd3 8 n 18446744073709551616 r rfl (by decide) h1 (by omega)
+
+
+
+/-- The header of the value at the start of `bs`. -/
+def hdrOf : List Nat → Except DErr (Hdr × List Nat)
+  | [] => .error .eofMarker
+  | b :: t => header (Marker.ofByte b) t
+
+theorem hdrOf_imm {b : Nat} {h : Hdr} (hl : layout (Marker.ofByte b) = .imm h) (r : List Nat) :
+    hdrOf (b :: r) = .ok (h, r) := by
+  simp only [hdrOf, header, hl]
+
+theorem hdrOf_len {b w n : Nat} {kind : LenKind} (hl : layout (Marker.ofByte b) = .len w kind)
+    (hn : n < 256 ^ w) (r : List Nat) :
+    hdrOf (b :: (beBytes w n ++ r)) = .ok (mkHdr kind n, r) := by
+  simp only [hdrOf, header, hl, readN_left (beBytes_length w n), beNat_beBytes w n hn]
+
+theorem hdrOf_strHdr {n : Nat} (h : n < 2 ^ 32) (r : List Nat) :
+    hdrOf (strHdr n ++ r) = .ok (.str n, r) := by
+  unfold strHdr
+  split
+  · rename_i h1
+    exact hdrOf_imm (by rw [ofByte_fixStr h1]; rfl) r
+  · split
+    · rename_i h2
+      have := hdrOf_len (b := 0xd9) (w := 1) (n := n) (kind := .str) rfl (by omega) r
+      rwa [beBytes_one h2] at this
+    · split
+      · exact hdrOf_len (b := 0xda) (w := 2) (kind := .str) rfl (by omega) r
+      · exact hdrOf_len (b := 0xdb) (w := 4) (kind := .str) rfl (by omega) r
+
+theorem hdrOf_binHdr {n : Nat} (h : n < 2 ^ 32) (r : List Nat) :
+    hdrOf (binHdr n ++ r) = .ok (.bin n, r) := by
+  unfold binHdr
+  split
+  · rename_i h2
+    have := hdrOf_len (b := 0xc4) (w := 1) (n := n) (kind := .bin) rfl (by omega) r
+    rwa [beBytes_one h2] at this
+  · split
+    · exact hdrOf_len (b := 0xc5) (w := 2) (kind := .bin) rfl (by omega) r
+    · exact hdrOf_len (b := 0xc6) (w := 4) (kind := .bin) rfl (by omega) r
+
+theorem hdrOf_arrHdr {n : Nat} (h : n < 2 ^ 32) (r : List Nat) :
+    hdrOf (arrHdr n ++ r) = .ok (.arr n, r) := by
+  unfold arrHdr
+  split
+  · rename_i h1
+    exact hdrOf_imm (by rw [ofByte_fixArray h1]; rfl) r
+  · split
+    · exact hdrOf_len (b := 0xdc) (w := 2) (kind := .arr) rfl (by omega) r
+    · exact hdrOf_len (b := 0xdd) (w := 4) (kind := .arr) rfl (by omega) r
+
+theorem hdrOf_mapHdr {n : Nat} (h : n < 2 ^ 32) (r : List Nat) :
+    hdrOf (mapHdr n ++ r) = .ok (.map n, r) := by
+  unfold mapHdr
+  split
+  · rename_i h1
+    exact hdrOf_imm (by rw [ofByte_fixMap h1]; rfl) r
+  · split
+    · exact hdrOf_len (b := 0xde) (w := 2) (kind := .map) rfl (by omega) r
+    · exact hdrOf_len (b := 0xdf) (w := 4) (kind := .map) rfl (by omega) r
+
+theorem hdrOf_extHdr {n : Nat} (h : n < 2 ^ 32) (r : List Nat) :
+    hdrOf (extHdr n ++ r) = .ok (.ext n, r) := by
+  unfold extHdr
+  split
+  · rename_i h1; subst h1; exact hdrOf_imm (b := 0xd4) rfl r
+  · split
+    · rename_i h1; subst h1; exact hdrOf_imm (b := 0xd5) rfl r
+    · split
+      · rename_i h1; subst h1; exact hdrOf_imm (b := 0xd6) rfl r
+      · split
+        · rename_i h1; subst h1; exact hdrOf_imm (b := 0xd7) rfl r
+        · split
+          · rename_i h1; subst h1; exact hdrOf_imm (b := 0xd8) rfl r
+          · split
+            · rename_i h2
+              have := hdrOf_len (b := 0xc7) (w := 1) (n := n) (kind := .ext) rfl (by omega) r
+              rwa [beBytes_one h2] at this
+            · split
+              · exact hdrOf_len (b := 0xc8) (w := 2) (kind := .ext) rfl (by omega) r
+              · exact hdrOf_len (b := 0xc9) (w := 4) (kind := .ext) rfl (by omega) r
+
+/-- `decodeG` in terms of the header. -/
+theorem decodeG_str (ext : Bool) (d : Nat) {bs : List Nat} {len : Nat} {r : List Nat}
+    (h : hdrOf bs = .ok (.str len, r)) :
+    decodeG ext d bs =
+      match readN len r with
+      | .error e => .error e
+      | .ok (s, r') => .ok (if validUtf8 s then .str s else .bin s, r') := by
+  cases bs with
+  | nil => cases h
+  | cons b t => unfold decodeG; simp only [hdrOf] at h; simp only [h]; rfl
+
+theorem decodeG_bin (ext : Bool) (d : Nat) {bs : List Nat} {len : Nat} {r : List Nat}
+    (h : hdrOf bs = .ok (.bin len, r)) :
+    decodeG ext d bs =
+      match readN len r with
+      | .error e => .error e
+      | .ok (s, r') => .ok (.bin s, r') := by
+  cases bs with
+  | nil => cases h
+  | cons b t => unfold decodeG; simp only [hdrOf] at h; simp only [h]; rfl
+
+theorem decodeG_ext (d : Nat) (hd : d ≠ 0) {bs : List Nat} {len : Nat} {r : List Nat}
+    (h : hdrOf bs = .ok (.ext len, r)) :
+    decodeG true (d + 1) bs =
+      match readN 1 r with
+      | .error e => .error e
+      | .ok (ty, r') =>
+        match readN len r' with
+        | .error e => .error e
+        | .ok (s, r'') => .ok (.ext (beNat ty) s, r'') := by
+  cases bs with
+  | nil => cases h
+  | cons b t => unfold decodeG; simp only [hdrOf] at h; simp only [h, hd, ↓reduceIte]; rfl
+
+theorem decodeG_arr (ext : Bool) (d : Nat) (hd : d ≠ 0) {bs : List Nat} {n : Nat} {r : List Nat}
+    (h : hdrOf bs = .ok (.arr n, r)) :
+    decodeG ext (d + 1) bs =
+      match seqWith (decodeG ext d) n r with
+      | .error e => .error e
+      | .ok (vs, r') => .ok (.arr vs, r') := by
+  cases bs with
+  | nil => cases h
+  | cons b t => unfold decodeG; simp only [hdrOf] at h; simp only [h, hd, ↓reduceIte]; rfl
+
+theorem decodeG_map (ext : Bool) (d : Nat) (hd : d ≠ 0) {bs : List Nat} {n : Nat} {r : List Nat}
+    (h : hdrOf bs = .ok (.map n, r)) :
+    decodeG ext (d + 1) bs =
+      match pairsWith (decodeG ext d) n r with
+      | .error e => .error e
+      | .ok (kvs, r') => .ok (.map kvs, r') := by
+  cases bs with
+  | nil => cases h
+  | cons b t => unfold decodeG; simp only [hdrOf] at h; simp only [h, hd, ↓reduceIte]; rfl
+
+/-! ## Round trip -/
+
+mutual
+/-- How many nested collections (or an ext, which rmp_serde counts like one)
+the value needs the depth counter to allow. -/
+def MVal.nesting : MVal → Nat
+  | .arr xs => 1 + nestingList xs
+  | .map kvs => 1 + nestingPairs kvs
+  | .ext _ _ => 1
+  | _ => 0
+def nestingList : List MVal → Nat
+  | [] => 0
+  | x :: xs => max x.nesting (nestingList xs)
+def nestingPairs : List (MVal × MVal) → Nat
+  | [] => 0
+  | (k, v) :: kvs => max k.nesting (max v.nesting (nestingPairs kvs))
+end
+
+mutual
+/-- Values that rmp_serde's serializer can write and its deserializer gives
+back: every number in the range of its wire type, every length below 2^32,
+`str` holding well-formed UTF-8 (other strings come back as `bin`), and ext
+values only when the visitor accepts them (`allowExt`). -/
+def MVal.WF (allowExt : Bool) : MVal → Prop
+  | .nil => True
+  | .bool _ => True
+  | .uint n => n < 2 ^ 64
+  | .nint n => 1 ≤ n ∧ n ≤ 2 ^ 63
+  | .f32 b => b < 2 ^ 32
+  | .f64 b => b < 2 ^ 64
+  | .str s => s.length < 2 ^ 32 ∧ validUtf8 s = true
+  | .bin s => s.length < 2 ^ 32
+  | .arr xs => xs.length < 2 ^ 32 ∧ WFList allowExt xs
+  | .map kvs => kvs.length < 2 ^ 32 ∧ WFPairs allowExt kvs
+  | .ext ty s => allowExt = true ∧ ty < 256 ∧ s.length < 2 ^ 32
+def WFList (allowExt : Bool) : List MVal → Prop
+  | [] => True
+  | x :: xs => x.WF allowExt ∧ WFList allowExt xs
+def WFPairs (allowExt : Bool) : List (MVal × MVal) → Prop
+  | [] => True
+  | (k, v) :: kvs => k.WF allowExt ∧ v.WF allowExt ∧ WFPairs allowExt kvs
+end
+
+mutual
+theorem roundtrip_val (ext : Bool) : ∀ (v : MVal) (d : Nat) (r : List Nat),
+    v.WF ext → v.nesting < d → decodeG ext d (encode v ++ r) = .ok (v, r)
+  | .nil, d, r, _, _ => by unfold decodeG; rfl
+  | .bool true, d, r, _, _ => by unfold decodeG; rfl
+  | .bool false, d, r, _, _ => by unfold decodeG; rfl
+  | .uint n, d, r, h, _ => dec_uint ext d n r h
+  | .nint n, d, r, h, _ => dec_nint ext d n r h.1 h.2
+  | .f32 b, d, r, h, _ => by
+    have := dec_data ext d 0xca 4 .f32 (beBytes 4 b) r rfl (beBytes_length _ _)
+    rw [mkData, beNat_beBytes 4 b (by simp only [MVal.WF] at h; omega)] at this
+    exact this
+  | .f64 b, d, r, h, _ => by
+    have := dec_data ext d 0xcb 8 .f64 (beBytes 8 b) r rfl (beBytes_length _ _)
+    rw [mkData, beNat_beBytes 8 b (by simp only [MVal.WF] at h; omega)] at this
+    exact this
+  | .str s, d, r, h, _ => by
+    simp only [MVal.WF] at h
+    simp only [encode, List.append_assoc]
+    rw [decodeG_str ext d (hdrOf_strHdr h.1 (s ++ r)), readN_left rfl]
+    simp only [h.2, ↓reduceIte]
+  | .bin s, d, r, h, _ => by
+    simp only [MVal.WF] at h
+    simp only [encode, List.append_assoc]
+    rw [decodeG_bin ext d (hdrOf_binHdr h (s ++ r)), readN_left rfl]
+  | .ext ty s, d, r, h, hn => by
+    simp only [MVal.WF] at h
+    obtain ⟨he, hty, hs⟩ := h
+    subst he
+    simp only [MVal.nesting] at hn
+    obtain ⟨d', rfl⟩ : ∃ d', d = d' + 1 := ⟨d - 1, by omega⟩
+    simp only [encode, List.append_assoc]
+    rw [decodeG_ext d' (by omega) (hdrOf_extHdr hs _)]
+    have e1 : readN 1 (ty :: s ++ r) = .ok ([ty], s ++ r) := readN_left (x := [ty]) rfl (s ++ r)
+    simp only [e1, readN_left (x := s) rfl r]
+    simp [beNat]
+  | .arr xs, d, r, h, hn => by
+    simp only [MVal.WF] at h
+    simp only [MVal.nesting] at hn
+    obtain ⟨d', rfl⟩ : ∃ d', d = d' + 1 := ⟨d - 1, by omega⟩
+    simp only [encode, List.append_assoc]
+    rw [decodeG_arr ext d' (by omega) (hdrOf_arrHdr h.1 _),
+      roundtrip_list ext xs d' r h.2 (by omega)]
+  | .map kvs, d, r, h, hn => by
+    simp only [MVal.WF] at h
+    simp only [MVal.nesting] at hn
+    obtain ⟨d', rfl⟩ : ∃ d', d = d' + 1 := ⟨d - 1, by omega⟩
+    simp only [encode, List.append_assoc]
+    rw [decodeG_map ext d' (by omega) (hdrOf_mapHdr h.1 _),
+      roundtrip_pairs ext kvs d' r h.2 (by omega)]
+theorem roundtrip_list (ext : Bool) : ∀ (xs : List MVal) (d : Nat) (r : List Nat),
+    WFList ext xs → nestingList xs < d →
+    seqWith (decodeG ext d) xs.length (encodeList xs ++ r) = .ok (xs, r)
+  | [], d, r, _, _ => by simp [seqWith, encodeList]
+  | x :: xs, d, r, h, hn => by
+    simp only [WFList] at h
+    simp only [nestingList] at hn
+    simp only [List.length_cons, seqWith, encodeList, List.append_assoc]
+    have e1 := roundtrip_val ext x d (encodeList xs ++ r) h.1 (by omega)
+    have e2 := roundtrip_list ext xs d r h.2 (by omega)
+    simp only [e1, e2]
+theorem roundtrip_pairs (ext : Bool) : ∀ (kvs : List (MVal × MVal)) (d : Nat) (r : List Nat),
+    WFPairs ext kvs → nestingPairs kvs < d →
+    pairsWith (decodeG ext d) kvs.length (encodePairs kvs ++ r) = .ok (kvs, r)
+  | [], d, r, _, _ => by simp [pairsWith, encodePairs]
+  | (k, v) :: kvs, d, r, h, hn => by
+    simp only [WFPairs] at h
+    simp only [nestingPairs] at hn
+    simp only [List.length_cons, pairsWith, encodePairs, List.append_assoc]
+    have e1 := roundtrip_val ext k d (encode v ++ (encodePairs kvs ++ r)) h.1 (by omega)
+    have e2 := roundtrip_val ext v d (encodePairs kvs ++ r) h.2.1 (by omega)
+    have e3 := roundtrip_pairs ext kvs d r h.2.2 (by omega)
+    simp only [e1, e2, e3]
+end
+
 end Xt.Msgpack
